@@ -223,7 +223,9 @@ class CellCycleController:
         released = lock.release(owner=ctx.operation_id)
 
         if released:
-            del ctx.acquired_resources[resource_id]
+            # A re-entrant hold stays tracked until its last release
+            if lock.owner != ctx.operation_id:
+                del ctx.acquired_resources[resource_id]
             self.dependency_graph.remove_all_for_agent(ctx.operation_id)
 
         return released
@@ -231,7 +233,10 @@ class CellCycleController:
     def release_all_resources(self, ctx: OperationContext) -> None:
         """Release all resources held by an operation."""
         for resource_id in list(ctx.acquired_resources.keys()):
-            self.release_resource(ctx, resource_id)
+            # One release per acquisition (re-entrant holds count > 1)
+            while self.release_resource(ctx, resource_id):
+                if resource_id not in ctx.acquired_resources:
+                    break
 
     def check_deadlock(self) -> Optional[DeadlockInfo]:
         """Check for deadlocks in current operations."""
